@@ -52,6 +52,11 @@ func runC15(c *Ctx) {
 		vt, et := b.Of(e.Results[0], e.Instr), b.Of(e.Results[1], e.Instr)
 		blk := e.Instr.Block()
 		switch {
+		case matches("call<(hash.Hash).Sum>(call<(crypto.Hash).New>(load(faddr<#0>(p0))), nil)", vt) && et.Is("nil"):
+			// the empty root computed in place
+			nEmpty++
+			r.Check(mustPass(fn, blk, e0), "C15.shape.empty", c.ipos(e.Instr), "empty root returned exactly under len(data)==0")
+			r.Check(true, "C15.shape.empty-hash", c.ipos(e.Instr), "empty root = t.hash.New().Sum(nil) with nothing written: %s", vt)
 		case matches("call<*>(p0)", vt) && et.Is("nil"):
 			nEmpty++
 			emptyFn = calleeOf(vt)
